@@ -2912,7 +2912,7 @@ func TestCheck(t *testing.T) {
 	defer cleanupScratch()
 	core.Main(t, core.Check{
 		ID:    "C09",
-		Level: "fault_enumeration",
+		Level: "exploration", // plans (base pack, edits, paths, chunking) are sampled; only single-fault positions of packs <= 640 B are enumerated
 		Rule: "plan = base pack (go-git encoder with OFS / REF deltas / no deltas over a generated universe of blobs 0 B..70 KB, trees, commits, tag; the same universe packed by real git repack with depth 50 / REF deltas / depth 1; 8 go-git-fixtures packs; 7 hand-serialised packs incl. REF-on-OFS, delta-before-base and a cyclic REF pair; OFS chains of depth 4090..4100) " +
 			"x 0-3 edits (bit flip / truncate / drop / duplicate / zero-fill / junk at structure-biased offsets; declared size +-d, OFS offset 0/self/beyond/header/mid-entry/wrong-entry/overflow, REF base own/absent/wrong/later-delta, swap, count, duplicate entry, delta source/target size, copy out of bounds, retype) x trailer stale|recomputed " +
 			"x 1-3 of 11 ingestion paths x chunking (1-byte, list+default, whole); packs <= 640 bytes with enum are expanded into every offset x {flip bit k (2 bits quick, 8 thorough), truncate} x {stale, recomputed}; " +
